@@ -7,13 +7,17 @@
     GATE   = cls nq q_1 … q_nq isM isChan
     PARAMS = PV1(depolarizing_one_qubit) PV2(depolarizing_two_qubit) PV1(t1) PV1(t2)
              gate_time_1 gate_time_2 excited_population RO(readout_one_qubit)
-    PV1    = 0 v | 1 n (key v)*n | 2                (number | dict | anything else)
-    PV2    = 0 v | 1 n (nk key_1…key_nk v)*n | 2
-    RO     = 0 r | 1 n (key ROV)*n | 2
+    PV1    = 0 v | 1 n (KEY v)*n | 2                (number | dict | anything else)
+    PV2    = 0 v | 1 n (KEY v)*n | 2
+    RO     = 0 r | 1 n (KEY ROV)*n | 2
+    KEY    = len c_1 … c_len                        (the key STRING, as character codes: the
+                                                     model parses it — `int(key)` / the pair form
+                                                     `"a-b"`, any number of digits, blanks)
     ROV    = 0 p | 1 len v_1…v_len                  (number | tuple/list)
     (numbers are identifiers of values: the model passes them through unchanged)
 
-  Answer: `RAISE` if `from_dict` raises, else four `|`-separated fields
+  Answer: `RAISE` if `from_dict` raises (a key that is not a numeral / pair of numerals, a `t1` key
+  missing in `t2`, an empty readout tuple), else four `|`-separated fields
     rules   R<key>:<kind>:<filter>:<payload>      key -1 = None; filter `-` = None
     items   G<tag> / C<rule>:<kind>:<q,q,…>       `from_dict` then `apply`, rule numbers
     decoded G<tag> / S<kind>:<payload>:<q,q,…>    the same, channels labelled by parameters
@@ -64,21 +68,12 @@ def nextNGates : P (List NGate) := do
     out := (← nextNGate i) :: out
   pure out.reverse
 
-def nextPV1 : P (PVal Nat Nat) := do
-  let c ← nextNat
-  match c with
-  | 0 => pure (.num (← nextNat))
-  | 1 =>
-    let n ← nextNat
-    let mut out := []
-    for _ in [0:n] do
-      let k ← nextNat
-      let v ← nextNat
-      out := (k, v) :: out
-    pure (.dict out.reverse)
-  | _ => pure .other
+def nextKey : P (List Char) := do
+  let n ← nextNat
+  let cs ← nextNats n
+  pure (cs.map Char.ofNat)
 
-def nextPV2 : P (PVal (List Nat) Nat) := do
+def nextPVS : P (PVal (List Char) Nat) := do
   let c ← nextNat
   match c with
   | 0 => pure (.num (← nextNat))
@@ -86,8 +81,7 @@ def nextPV2 : P (PVal (List Nat) Nat) := do
     let n ← nextNat
     let mut out := []
     for _ in [0:n] do
-      let nk ← nextNat
-      let k ← nextNats nk
+      let k ← nextKey
       let v ← nextNat
       out := (k, v) :: out
     pure (.dict out.reverse)
@@ -101,7 +95,7 @@ def nextROV : P (ROVal Nat) := do
     let n ← nextNat
     pure (.seq (← nextNats n))
 
-def nextRO : P (ROParam Nat) := do
+def nextRO : P (ROParamS Nat) := do
   let c ← nextNat
   match c with
   | 0 => pure (.num (← nextNat))
@@ -109,17 +103,17 @@ def nextRO : P (ROParam Nat) := do
     let n ← nextNat
     let mut out := []
     for _ in [0:n] do
-      let k ← nextNat
+      let k ← nextKey
       let v ← nextROV
       out := (k, v) :: out
     pure (.dict out.reverse)
   | _ => pure .other
 
-def nextParams : P (IBMQParams Nat) := do
-  let d1 ← nextPV1
-  let d2 ← nextPV2
-  let t1 ← nextPV1
-  let t2 ← nextPV1
+def nextParams : P (IBMQParamsS Nat) := do
+  let d1 ← nextPVS
+  let d2 ← nextPVS
+  let t1 ← nextPVS
+  let t2 ← nextPVS
   let g1 ← nextNat
   let g2 ← nextNat
   let ep ← nextNat
@@ -160,12 +154,12 @@ def handle (line : String) : String :=
       let mCls ← nextNat
       let gs ← nextNGates
       let pr ← nextParams
-      match fromDict mCls pr with
-      | none => pure (if (ibmqSpec pr gs).isNone then "RAISE" else "RAISE-MISMATCH")
+      match fromDictS mCls pr with
+      | none => pure (if (ibmqSpecS pr gs).isNone then "RAISE" else "RAISE-MISMATCH")
       | some R =>
         let items := attachNoise (R.map (·.1)) gs
-        let dec := (ibmqApply mCls pr gs).getD []
-        let spec := match ibmqSpec pr gs with | some l => " ".intercalate (l.map showSItem) | none => "NONE"
+        let dec := (ibmqApplyS mCls pr gs).getD []
+        let spec := match ibmqSpecS pr gs with | some l => " ".intercalate (l.map showSItem) | none => "NONE"
         pure (" ".intercalate (R.map showRule) ++ " | " ++ " ".intercalate (items.map showItem)
           ++ " | " ++ " ".intercalate (dec.map showSItem) ++ " | " ++ spec)
     (act.run rd).1
